@@ -73,7 +73,10 @@ def check_pair(a_sch, b_sch):
             bad.append('migration through START/POPULATE/COMMIT MIGRATION does '
                        'not produce the target: ' + '; '.join(d[:3]))
     except st['errors'].EdgeDBError as e:
-        return None, f'migration refused: {type(e).__name__}: {str(e)[:120]}'
+        if 'incomplete migration' not in str(e):
+            return None, f'migration refused: {type(e).__name__}: {str(e)[:120]}'
+        # COMMIT noticed that the computed migration does not reach B; the
+        # DDL text of that migration is still what a user would replay
     # path 2: diff + apply, path 3: DDL text of the diff
     std = st['boot'].std_schema()
     full_a = st['s_schema'].ChainedSchema(std, real_a, st['s_schema'].EMPTY_SCHEMA)
@@ -90,8 +93,11 @@ def check_pair(a_sch, b_sch):
                      + '; '.join(d[:3]))
         text = s_ddl.ddl_text_from_delta(full_a, res2, delta)
         if text.strip():
-            res3 = s_ddl.apply_ddl_script(text, schema=full_a)
-            got3 = res3.get_top_schema()
+            # replayed the way a user replays it: as a script through the
+            # server compiler, on a database holding A
+            ctx3 = SC.new_ctx(schema=real_a)
+            SC.compile_stmt(ctx3, text)
+            got3 = SC.user_schema(ctx3)
         else:
             got3 = real_a
         d = SC.proj_diff(SC.proj(got3), want)
